@@ -86,9 +86,9 @@ Lemma flat_map_ext_Forall {A B} (f g : A -> list B) (l : list A) :
   Forall (fun x => f x = g x) l -> flat_map f l = flat_map g l.
 Proof. intro H. induction H as [|x r Hx Hr IH]; [reflexivity|]. cbn [flat_map]. now rewrite Hx, IH. Qed.
 
+(* the reflection codec never parses a signature: of the variables of the common Section P
+   only the configuration is needed here *)
 Section P.
-  Variable parse : string -> option ty.
-  Hypothesis parse_print : forall t, wf_ty t = true -> parse (print t) = Some t.
   Variable c : wcfg.
 
   (* ---------- the encoder writes the documented bytes ---------- *)
